@@ -8,7 +8,15 @@ checker over Z decides, for EVERY operation of crys.G, that (g.rot, g.indexmap) 
 jump network with its class rates onto itself (the premise of L_iso), and encloses the implementation's D by the
 exact coefficient (as C02);  (b) direct evaluator on the implementation, floats: symmetry, invariance under every
 g, positive semidefiniteness of D, L0vv, Lss; symmetry/invariance of Lsv, L1vv and the elastodiffusion tensor;
-rate ratios up to 1e12 (tolerance scaled by ratio*eps: the exact model cannot exhibit rounding - partial)."""
+rate ratios up to 1e12 (tolerance scaled by ratio*eps: the exact model cannot exhibit rounding - partial);
+(c) cross tensor Lsv: Onsager reciprocity exchanges species AND indices, so symmetry of Lsv in its Cartesian indices
+is refuted in general (C03_cross_symmetric_refuted) and proved exactly when the point group has no invariant
+antisymmetric tensor (C03_cross_symmetric_partial, executable criterion no_axialb).  Exact tier: on one-site crystals
+(rect/square: criterion true; oblique/monoclinic/triclinic: false) Coq evaluates the exact cross tensor of the
+solute-vacancy torus chain from a corrector certificate (cross_report), encloses the implementation's Lsv (torus GF
+injected) by it, evaluates the criterion on crys.G and reports whether the exact tensor is symmetric.  On crystals whose
+group admits an antisymmetric invariant the exact Lsv is NOT symmetric and the code reproduces it: known finding
+c03-Lsv-asym-axialgroup (the property text over-claims there; symmetrising would break C01)."""
 META = dict(
     level="proof",
     text=("Theorems: symmetry, non-negativity (scalar and tensor form) and invariance under every network automorphism "
@@ -17,13 +25,55 @@ META = dict(
           "symmetry/invariance/PSD on all tensors incl. elastodiffusion and extreme rate ratios."),
     note=("Trusted: Coq kernel/vm_compute; network construction from the implementation's jumpnetwork; float tolerances "
           "1e-9..1e-7 relative (scaled by rate-ratio*eps in the extreme regime, which the exact model cannot exhibit)."),
-    technique="Coq proof (L_sym, L_psd, L_iso) + symmetry-checker correspondence over Z + float evaluator",
+    technique="Coq proof (L_sym, L_psd, L_iso, cross-tensor criterion + refutation) + symmetry-checker and exact cross-tensor correspondence over Z + float evaluator",
 )
 
 import numpy as np
 from fractions import Fraction
-from . import gen, vm, netcase, tcommon
-from .lib import CoqFailure
+from . import gen, vm, netcase, tcommon, exact
+from .lib import CoqFailure, coq_Z, coq_nat, coq_list
+
+K_AXIAL = "c03-Lsv-asym-axialgroup"
+
+CROSS_IMPORTS = """From Coq Require Import List ZArith Bool Arith.
+From Onsager Require Import Base.OrdRing Base.Instances Model.Net Model.Interstitial Model.NetMaps Model.Lump Model.TensorSym.
+Import ListNotations.
+Local Open Scope Z_scope.
+Definition mk (a : nat * nat * Z * list Z) : edge Zring := let '(s, t, c, d) := a in mkEdge (K:=Zring) s t c d.
+Definition runcross (c : nat * nat * list (nat * nat * Z * list Z) * list (list Z) * list (list (list Z)) * list (list Z) * list (list Z)) : nat :=
+  let '(n, dim, es, gam, Rs, lo, hi) := c in cross_code (K:=Zring) n dim (map mk es) gam Rs lo hi.
+"""
+
+
+def cross_term(d, th, M, Lsv_impl, tol):
+    """exact pair chain (both species' displacements, lattice coordinates) + corrector certificate + integer enclosure of the
+    implementation's Lsv + the point group in lattice coordinates, as a Coq term for cross_code"""
+    from .c07 import exact_edges
+    crys = d.crys; dim = crys.dim; N = d.N
+    edges = exact_edges(d, th, M)
+    if edges is None: return None
+    n = N * N * M ** dim
+    gam = exact.corrector(n, edges, 2 * dim)
+    if gam is None: return None
+    sc = exact.lcm_den([e[2] for e in edges])
+    sd = exact.lcm_den([v for e in edges for v in e[3]])
+    sg = exact.lcm_den([g * sd for gk in gam for g in gk])
+    s = sd * sg
+    F = lambda x: Fraction(float(x))
+    ZV = sum(F(th["preV"][d.invmap[i]]) for i in range(N)); ZS = sum(F(th["preS"][d.invmap[i]]) for i in range(N))
+    # implementation: Lsv[a,b] = (vacancy a, solute b), Cartesian; chain: X[a][b] = Bform(S_a, V_b) = 2 * (ZV ZS / N) * sc * s^2 * L_latt[a][b]
+    Ll = (crys.invlatt @ np.asarray(Lsv_impl).T @ crys.invlatt.T)
+    fac = 2 * ZV * ZS / N * sc * s * s
+    width = tol * np.abs(Ll).max()
+    lo = [[exact.ffloor(F(Ll[a, b] - width) * fac) for b in range(dim)] for a in range(dim)]
+    hi = [[exact.fceil(F(Ll[a, b] + width) * fac) for b in range(dim)] for a in range(dim)]
+    enc = lambda e: "(%s, %s, %s, %s)" % (coq_nat(e[0]), coq_nat(e[1]), coq_Z(int(e[2] * sc)), coq_list([coq_Z(int(v * s)) for v in e[3]]))
+    mat = lambda m: coq_list([coq_list([coq_Z(int(x)) for x in row]) for row in m])
+    Rs = coq_list([mat(g.rot.tolist()) for g in crys.G])
+    bits = max(int(abs(int(g * s))).bit_length() for gk in gam for g in gk)
+    term = "(%s, %s, %s, %s, %s, %s, %s)" % (coq_nat(n), coq_nat(dim), coq_list([enc(e) for e in edges]),
+                                          coq_list([coq_list([coq_Z(int(g * s)) for g in gk]) for gk in gam]), Rs, mat(lo), mat(hi))
+    return term, dict(n=n, edges=len(edges), bits=bits)
 
 
 def check_tensor(ck, name, T, crys, psd, tol, doc, keypre):
@@ -116,10 +166,62 @@ def run(ck):
             ck.violation("exact enclosure failed (code %d)" % c, m, key="c03-exact-%d" % c)
     ck.extra["group_operations_checked_in_coq"] = nops
     ck.extra["traces_validated_against_impl"] = len(bad) + len(codes)
+    # ---------------- exact cross tensor of the solute-vacancy chain (one-site crystals) -----------------------
+    cterms, cmeta = [], []
+    for nm in (["rect", "oblique1"] if ck.quick else ["rect", "oblique1", "square", "oblique1", "mono", "tric"]):
+        crys, chem = gen.named(nm)
+        net = gen.percolating_network(crys, chem, rng, maxshell=1, maxjumps=30)
+        if net is None: continue
+        cut, sl, jn = net
+        d = vm.make(crys, chem, sl, jn, 1)
+        M = vm.min_torus(d)
+        if d.N * d.N * M ** crys.dim > (150 if ck.quick else 400): continue
+        for attempt in range(4):
+            th = vm.random_thermo(d, rng, interact=True, site_energies=False, dyadic=True)
+            args = d.preene2betafree(1.0, **th)
+            try:
+                I = vm.inject(d, args, M)
+            except Exception as e:
+                ck.violation("Lij raised %r" % e, {"crystal": nm}, key="c03-raise"); break
+            r = cross_term(d, th, M, I[2], 1e-9)
+            if r is None or r[1]["bits"] > 4000: continue
+            cterms.append(r[0])
+            cmeta.append(dict(crystal=nm, cutoff=cut, M=M, thermo={k: np.asarray(v).tolist() for k, v in th.items()}, Lsv=I[2].tolist(),
+                              axial_dim=tcommon.axial_dim(crys), **r[1]))
+            break
+    ccodes = []
+    try:
+        for a in range(0, len(cterms), 2):
+            out = ck.coq_cases("cross_%d" % a, "Eval vm_compute in (map runcross %s)." % coq_list(cterms[a:a + 2]), CROSS_IMPORTS)
+            import re
+            txt = out[out.index("="):].split(":")[0] if "=" in out else ""
+            got = [int(x) for x in re.findall(r"\d+", txt.replace("%nat", ""))]
+            if len(got) != len(cterms[a:a + 2]): raise CoqFailure("could not parse model output: " + out[:300])
+            ccodes += got
+    except CoqFailure as e:
+        ck.broken_proof = "correspondence cross_code: %s" % e
+        ccodes = []
+    for m, c in zip(cmeta, ccodes):
+        ck.case(key=("cross", m["crystal"], m["thermo"]), nontrivial=True, kind="exact-cross:%s:code%d" % (m["crystal"], c),
+                sample={"tier": "exact-cross-tensor", "crystal": m["crystal"], "states": m["n"], "code": c, "axial_dim": m["axial_dim"]})
+        if c == 4: raise RuntimeError("harness certificate rejected (cross tensor)")
+        if c == 5:
+            ck.violation("Lsv (torus GF injected) is not enclosed by the exact cross tensor of the solute-vacancy chain", m, key="c03-cross-enclosure")
+            continue
+        crit, symm = (c - 10) // 2, (c - 10) % 2
+        if crit != (1 if m["axial_dim"] == 0 else 0):
+            raise RuntimeError("harness: no_axialb (Coq, lattice coordinates) disagrees with axial_dim (numpy, Cartesian)")
+        if crit == 1 and symm == 0:
+            ck.violation("exact solute-vacancy tensor not symmetric although no antisymmetric tensor is invariant under crys.G: "
+                         "the chain built from the calculator's classes is not invariant under the point group", m, key="c03-cross-not-invariant")
+        if crit == 0 and symm == 0:
+            ck.violation("Lsv is not symmetric in its Cartesian indices on a crystal whose point group leaves an antisymmetric tensor "
+                         "invariant (exact cross tensor of the chain, enclosing the implementation's value, is asymmetric)", m, key=K_AXIAL)
+    ck.extra["exact_cross_tensor_cases"] = len(ccodes)
     # ---------------- vacancy-mediated tensors -----------------------------------------------------------
-    names = ["rect", "square", "honeycomb", "ortho", "sq2w", "tria", "sc", "b2"] + ([] if ck.quick else ["hcp", "fcc", "bcc", "re3", "tet", "hcp-nonideal"])
+    names = ["rect", "oblique1", "square", "mono", "honeycomb", "ortho", "sq2w", "tria", "sc", "b2"] + ([] if ck.quick else ["tric", "hcp", "fcc", "bcc", "re3", "tet", "hcp-nonideal"])
     nvm = 0
-    for rep in range(ck.n(5, 16)):
+    for rep in range(ck.n(7, 18)):
         nm = names[rep % len(names)] if rep < len(names) else rng.choice(names)
         crys, chem = gen.named(nm)
         net = gen.percolating_network(crys, chem, rng, maxshell=1, maxjumps=30)
@@ -146,7 +248,20 @@ def run(ck):
             doc.update(L0vv=L0vv.tolist(), Lss=Lss.tolist(), Lsv=Lsv.tolist(), L1vv=L1vv.tolist())
             check_tensor(ck, "L0vv", L0vv, crys, True, 1e-9, doc, "c03-L0vv")
             check_tensor(ck, "Lss", Lss, crys, True, 1e-6, doc, "c03-Lss")
-            check_tensor(ck, "Lsv", Lsv, crys, False, 1e-7, doc, "c03-Lsv")
-            check_tensor(ck, "L1vv", L1vv, crys, False, 1e-7, doc, "c03-L1vv")
+            # Lsv and L1vv are differences of terms proportional to the exchange rate: rounding grows like eps * (omega2/omega0)
+            # (measured 2e-17 * ratio on oblique/monoclinic lattices, where symmetry does not force the pieces to be symmetric)
+            r20 = float(np.exp(-np.min(args[5])) / np.exp(-np.min(args[3])))
+            tolc = max(1e-7, 1e-15 * r20)
+            if tcommon.axial_dim(crys) > 0:
+                # the exact Lsv is not symmetric here (C03_cross_symmetric_refuted); invariance is still required
+                scale = max(np.abs(Lsv).max(), 1e-300)
+                if tcommon.inv_err(crys, Lsv) > 10 * tolc * scale:
+                    ck.violation("Lsv not invariant under the point group: %.3g relative" % (tcommon.inv_err(crys, Lsv) / scale), doc, key="c03-Lsv-inv")
+                if tcommon.sym_err(Lsv) > tolc * scale:
+                    ck.violation("Lsv not symmetric: %.3g relative (point group admits an invariant antisymmetric tensor)"
+                                 % (tcommon.sym_err(Lsv) / scale), doc, key=K_AXIAL)
+            else:
+                check_tensor(ck, "Lsv", Lsv, crys, False, tolc, doc, "c03-Lsv")
+            check_tensor(ck, "L1vv", L1vv, crys, False, tolc, doc, "c03-L1vv")
     ck.extra["float_interstitial_cases"] = nfl
     ck.extra["float_vacancy_cases"] = nvm
